@@ -58,6 +58,7 @@ import CtyModel.Lemmas.d05bBridge
 import CtyModel.Lemmas.d05bLen
 import CtyModel.Lemmas.d05bInf
 import CtyModel.Lemmas.d05bKnownChain
+import CtyModel.Lemmas.d05bNull
 namespace CtyModel
 namespace C05
 open Refine
@@ -317,6 +318,14 @@ theorem rejects_notNull_contradiction [ExactOracle] (b b' : Builder) (hd : b.isD
     (h2 : ∀ x, x ≠ .null → γB b x = false) : step b .notNull ≠ .ok b' :=
   step_notNull_rejects hd h1 h2 b'
 
+/-- Both nullness contradictions FOR EVERY ORACLE (so for the code as it is), and with the stronger conclusion: the
+call PANICS.  (Neither call compares numbers; the `[ExactOracle]` of the two theorems above is not needed.) -/
+theorem nullness_contradiction_panics [EqOracle] (b : Builder) (hd : b.isDyn = false) :
+    (γB b .null = false → ∃ w, step b .null = .panic w) ∧
+    ((∃ x, x ≠ .null ∧ Conc.kindOk b.orig.ty x = true ∧ rangeOk b.wip x = true) →
+      (∀ x, x ≠ .null → γB b x = false) → ∃ w, step b .notNull = .panic w) :=
+  ⟨D05b.step_null_panics hd, D05b.step_notNull_panics hd⟩
+
 /-! ## "the result becomes a known value only if that value admits exactly what
 the refinement admitted" -/
 
@@ -503,6 +512,18 @@ theorem safePrefix_noBoundary_shape (delims nfc : List UInt8) (advances : List N
     ((scanLoop advances nfc.length 0 0).1 = 0 → safeKnownPrefix delims nfc (-1) advances = []) :=
   ⟨D05.safeKnownPrefix_noBoundary delims nfc advances hd hn,
    D05.safeKnownPrefix_noBoundary_single delims nfc advances hd hn⟩
+
+/-- What holds in the no-boundary case WITHOUT any law of the Unicode libraries: when the scanner reports the whole
+prefix as ONE grapheme cluster (a base-less run of combining marks, a lone Hangul vowel/trailing jamo sequence, …)
+nothing is recorded, and the empty prefix is a prefix of every string: continuation safety is unconditional there.
+With two or more clusters and no normalisation boundary the recorded prefix is the text before the last cluster
+(`safePrefix_noBoundary_shape`), and its safety rests on the probed laws `D05.ExtNB.lastClusterStart_stable` and `noBoundary_nonascii`
+(`safePrefix_continuation_safe_all`) — that case is searched (probed on every run), not proved. -/
+theorem safePrefix_noBoundary_single_cluster_safe (delims nfc : List UInt8) (advances : List Nat)
+    (hd : ∀ d ∈ delims, d < 128) (hn : ∀ b ∈ nfc, 128 ≤ b) (h1 : (scanLoop advances nfc.length 0 0).1 = 0)
+    (t : List UInt8) : safeKnownPrefix delims nfc (-1) advances <+: t := by
+  rw [(safePrefix_noBoundary_shape delims nfc advances hd hn).2 h1]
+  exact List.nil_prefix
 
 /-- Continuation safety for EVERY prefix and every continuation — boundary or not — for the delimiter table of the
 source, under the laws of `D05.ExtNB`: the streaming law (as before), "an ASCII byte is a normalisation boundary",
@@ -1369,6 +1390,17 @@ theorem known_collection_is_assertion_generated [EqOracle] (v w : Value) (cs : L
     (h : Generated.RefineFns.refine v cs = .ok w) :
     ∃ l : Nat, least ≤ l ∧ l ≤ most ∧ γV v (.coll l) = true ∧ (cs.map ext).all (fun c => den c (.coll l)) = true :=
   known_collection_is_assertion v w (cs.map ext) least most hl hfit (ok_of_generated (refine_eq v cs hm) h)
+
+/-- both nullness contradictions make the translated `Null()` / `NotNull()` PANIC, for every oracle -/
+theorem nullness_contradiction_panics_generated [EqOracle] (b : Builder) (hd : b.isDyn = false) :
+    (γB b .null = false → (Generated.RefineFns.step b .null).isPanic = true) ∧
+    ((∃ x, x ≠ .null ∧ Conc.kindOk b.orig.ty x = true ∧ rangeOk b.wip x = true) →
+      (∀ x, x ≠ .null → γB b x = false) → (Generated.RefineFns.step b .notNull).isPanic = true) := by
+  refine ⟨fun h => ?_, fun h1 h2 => ?_⟩
+  · obtain ⟨w, hw⟩ := (nullness_contradiction_panics b hd).1 h
+    exact panic_of_generated (step_eq b .null) hw
+  · obtain ⟨w, hw⟩ := (nullness_contradiction_panics b hd).2 h1 h2
+    exact panic_of_generated (step_eq b .notNull) hw
 
 /-- `ext` leaves a chain of `NotNull()` and length constraints alone -/
 theorem map_ext_lenOrNotNull (cs : List RefineCall) (hc : cs.all isLenOrNotNull = true) : cs.map ext = cs := by
